@@ -72,6 +72,22 @@ func init() {
 			in.p.Assume(in.ts.And(in.ts.SLe(in.ts.BV(64, uint64(lo)), t), in.ts.SLe(t, in.ts.BV(64, uint64(hi)))))
 			return t
 		},
+		"zzvNarrow": func(in *Interp, a []Value) Value {
+			// y := x with a proven range: the obligation lo <= x <= hi is checked, then x is renamed to a
+			// fresh mathematical integer carrying the tight magnitude bound
+			x := a[0].(*Term)
+			lo, hi := cInt(in, a[1], "lo"), cInt(in, a[2], "hi")
+			if x.IsConst() {
+				return x
+			}
+			rng := in.ts.And(in.ts.SLe(in.ts.BV(64, uint64(lo)), x), in.ts.SLe(x, in.ts.BV(64, uint64(hi))))
+			in.p.Check("narrow-in-range", rng, in.where(), false)
+			k := in.p.symCount["narrow"]
+			in.p.symCount["narrow"]++
+			y := in.ts.DyVar(fmt.Sprintf("narrow#%d", k), 0, math.Max(math.Abs(float64(lo)), math.Abs(float64(hi))))
+			in.p.Assume(in.ts.Eq(y, x))
+			return y
+		},
 		"zzvIntIn": func(in *Interp, a []Value) Value {
 			lo, hi := a[1].(*Term), a[2].(*Term)
 			if lo.IsConst() && hi.IsConst() && lo.S64() == hi.S64() {
